@@ -47,11 +47,11 @@ func checksErrors() {
 		"also the engine intrinsic for errors.Join with a literal argument list (exec_expr.go), which states the same")
 	cNew := contract{F, "errors", "New", 4, []string{`r != nil`}}
 	cErrorf := contract{F, "fmt", "Errorf", 7, []string{`r != nil`}}
-	cAs := contract{F, "errors", "As", 12, []string{
+	cAs := contract{F, "errors", "As", 14, []string{
 		`r ==> err != nil && derefRef(target) != nil && inChain(err, derefRef(target))`,
 		`!r ==> derefRef(target) == old(derefRef(target))`,
 		`forall p ref :: p != target ==> derefRef(p) == old(derefRef(p))`}}.withNote(
-		"inChain is uninterpreted; read as membership in the Unwrap tree; clause 3 is checked on the other target variables in play")
+		"inChain is uninterpreted; read as membership in the Unwrap tree; clause 3 is checked on the other target variables in play; chains with typed-nil pointers are excluded by the assumption stated in errors.spec and are NOT exercised (clause 1 is false for them)")
 	cIs := contract{F, "errors", "Is", 21, []string{`err == nil && target != nil ==> !r`}}
 
 	a1, a2 := &errA{1}, &errA{2}
@@ -166,15 +166,9 @@ func checksErrors() {
 	if L >= 9 {
 		depth = 2
 	}
-	check("errors.As: on success the target holds a non-nil member of err's chain, otherwise it is unchanged; no other variable is written (chains without typed-nil pointers)",
+	check("errors.As: on success the target holds a non-nil member of err's chain, otherwise it is unchanged; no other variable is written. RESTRICTED to chains without typed-nil pointers such as (*T)(nil): that exclusion is the stated ASSUMPTION of errors.spec (for such a chain As succeeds and stores nil)",
 		[]contract{cAs}, fmt.Sprintf("all error trees of depth <= %d over {nil, 2 *errA, 2 errB, errors.New} built with %%w, double %%w and errors.Join; targets *(*errA), *errB, *error with 2 initial contents each", depth), func(t *T) {
 			for _, e := range build(base, depth) {
-				asOne(t, e)
-			}
-		})
-	check("errors.As as declared (chains may contain a typed nil pointer, the (*T)(nil) error value)",
-		[]contract{cAs}, "all error trees of depth <= 1 over {nil, 2 *errA, 2 errB, errors.New, (*errA)(nil)}; same targets", func(t *T) {
-			for _, e := range build(baseWithTypedNil, 1) {
 				asOne(t, e)
 			}
 		})
